@@ -65,6 +65,10 @@ type Case struct {
 	Damage      []Dmg  `json:"dmg"`
 	Twin        *Twin  `json:"twin,omitempty"`
 	Repair      bool   `json:"repair,omitempty"` // RepairCorruptedShards of the reading store
+	// Companions: other blobs of the same table written by the same Add call as the blob under test
+	// (Before of them in front of it).
+	Companions int `json:"companions,omitempty"`
+	Before     int `json:"before,omitempty"`
 }
 
 func (c Case) N() int { return c.D + c.P }
@@ -414,6 +418,12 @@ func genCase(t *rapid.T, mode string) Case {
 		Seed:        rapid.Uint64().Draw(t, "seed"),
 		ExtraCap:    rapid.SampledFrom([]int{0, 0, 1, 7, 64, 200000}).Draw(t, "extraCap"),
 		Damage:      make([]Dmg, n),
+	}
+	if mode == "write" || rapid.IntRange(0, 3).Draw(t, "batch") == 0 {
+		c.Companions = rapid.SampledFrom([]int{0, 0, 1, 2, 3, 5}).Draw(t, "companions")
+		if c.Companions > 0 {
+			c.Before = rapid.IntRange(0, c.Companions).Draw(t, "before")
+		}
 	}
 	if size == 0 {
 		return c
